@@ -128,7 +128,7 @@ func (_this *Context) BeginArrayAnyType(arrayType events.ArrayType) {
 	switch arrayType {
 	case events.ArrayTypeString:
 		_this.beginArray(arrayType, &stringRule, dataType, _this.config.Rules.MaxArraySizeBytes, _this.ValidateContentsString)
-	case events.ArrayTypeResourceID:
+	case events.ArrayTypeResourceID, events.ArrayTypeReferenceRemote:
 		_this.beginArray(arrayType, &stringRule, dataType, _this.config.Rules.MaxArraySizeBytes, _this.ValidateContentsRID)
 	case events.ArrayTypeCustomText:
 		_this.beginArray(arrayType, &stringRule, dataType, _this.config.Rules.MaxArraySizeBytes, _this.ValidateContentsCustomText)
@@ -302,6 +302,10 @@ func (_this *Context) ValidateFullArrayAnyType(arrayType events.ArrayType, eleme
 	case events.ArrayTypeResourceID:
 		_this.ValidateLengthRID(uint64(len(data)))
 		_this.ValidateContentsRID(data)
+	case events.ArrayTypeReferenceRemote:
+		_this.ValidateByteCountForType(arrayType, elementCount, uint64(len(data)))
+		_this.ValidateLengthRID(uint64(len(data)))
+		_this.ValidateContentsRID(data)
 	case events.ArrayTypeCustomText:
 		_this.ValidateLengthAnyType(uint64(len(data)))
 		_this.ValidateContentsString(data)
@@ -316,7 +320,7 @@ func (_this *Context) ValidateFullArrayStringlike(arrayType events.ArrayType, da
 	case events.ArrayTypeString:
 		_this.ValidateLengthString(uint64(len(data)))
 		_this.ValidateContentsStringlike(data)
-	case events.ArrayTypeResourceID:
+	case events.ArrayTypeResourceID, events.ArrayTypeReferenceRemote:
 		_this.ValidateLengthRID(uint64(len(data)))
 		_this.ValidateContentsRIDString(data)
 	case events.ArrayTypeCustomText:
